@@ -55,6 +55,7 @@ type Thread struct {
 	panicMsg string
 	unwind   bool
 	held     map[*Cell]int
+	panicPkg string
 	isEnv    bool
 	native   *Closure
 }
@@ -691,6 +692,10 @@ func (x *Exec) step(t *Thread, f *Frame, instr ssa.Instruction) {
 			if gp, ok := r.(goPanicSignal); ok {
 				t.unwind = true
 				t.panicMsg = gp.msg
+				t.panicPkg = ""
+				if f.fn.Pkg != nil && f.fn.Pkg.Pkg != nil {
+					t.panicPkg = f.fn.Pkg.Pkg.Path()
+				}
 				t.panicVal = gp.val
 				if t.panicVal == nil {
 					t.panicVal = Iface{T: types.Typ[types.String], V: Str{K: gp.msg}}
@@ -828,6 +833,13 @@ func (x *Exec) recoverReturn(t *Thread, f *Frame) {
 }
 
 func (x *Exec) uncaughtPanic(t *Thread) {
+	// a panic raised inside a third-party module that the engine executes without a model of its environment
+	// (entropy, OS, reflection) says nothing about the code under test
+	if pp := t.panicPkg; pp != "" && pp != x.P.ModulePath && !strings.HasPrefix(pp, x.P.ModulePath+"/") {
+		if first := strings.SplitN(pp, "/", 2)[0]; strings.Contains(first, ".") {
+			x.end("inconclusive", "unsupported: panic inside unmodelled third-party package "+pp+": "+t.panicMsg)
+		}
+	}
 	msg := t.panicMsg
 	if msg == "" {
 		msg = x.describe(t.panicVal)
